@@ -11,5 +11,6 @@ $G sync/atomic vatomic AddInt32 AddInt64 AddUint32 AddUint64 LoadInt32 LoadInt64
 $G time vtime Now Since Until Sleep Ticker NewTicker Tick Timer NewTimer After AfterFunc > $RT/vtime/zz_reexport.go
 $G os vos File OpenFile Open Create NewFile CreateTemp Pipe Stdin Stdout Stderr Rename Remove RemoveAll Link Symlink Mkdir MkdirAll WriteFile Truncate Exit > $RT/vos/zz_reexport.go
 $G math/rand vrand Seed Int Intn Int31 Int31n Int63 Int63n Uint32 Uint64 Float64 Float32 Perm Shuffle ExpFloat64 NormFloat64 Read > $RT/vrand/zz_reexport.go
+$G net vnet DialTimeout Dial > $RT/vnet/zz_reexport.go
 rm -f $G
 gofmt -l $RT || true
